@@ -25,7 +25,7 @@ func (s *verifStream) Read(p []byte) (int, error) {
 	}
 	s.reads++
 	verifapi.Assume(s.reads <= verifapi.Param("reads", 8))
-	n := [5]int{1, 2, 3, 5, 7}[verifapi.Concrete(verifapi.Choice("read.n", 5))]
+	n := [3]int{1, 2, 8}[verifapi.Concrete(verifapi.Choice("read.n", 3))]
 	if n > rem {
 		n = rem
 	}
@@ -40,28 +40,38 @@ func (s *verifStream) Write(p []byte) (int, error) { s.out = append(s.out, p...)
 func (s *verifStream) Close() error                { return nil }
 
 func VerifC09_PacketConn() {
-	// write two packets through the real adapter ...
+	// write the packets through the real adapter - lengths 0, 1 or 3: the empty packet included
+	// (an empty datagram is a packet like any other) ...
 	w := &verifStream{}
 	cw := newEncapsulationPacketConn(nil, nil, w)
-	p0 := []byte{verifapi.Uint8("p0"), 0x01, 0x02}
-	p1 := []byte{verifapi.Uint8("p1"), 0x03}
-	n, err := cw.WriteTo(p0, nil)
-	verifapi.Assert(err == nil && n == 3, "a packet is written whole")
-	n, err = cw.WriteTo(p1, nil)
-	verifapi.Assert(err == nil && n == 2, "a packet is written whole")
-	verifapi.Assert(len(w.out) == 7, "each packet is framed with its length prefix and flushed")
+	pk := make([][]byte, verifapi.Param("packets", 2))
+	total := 0
+	for i := range pk {
+		ln := [3]int{0, 1, 3}[verifapi.Concrete(verifapi.Choice("len", 3))]
+		pk[i] = make([]byte, ln)
+		for j := range pk[i] {
+			pk[i][j] = byte(16*i + j)
+		}
+		if ln > 0 {
+			pk[i][0] = verifapi.Uint8("first byte")
+		}
+		n, err := cw.WriteTo(pk[i], nil)
+		verifapi.Assert(err == nil && n == ln, "a packet is written whole")
+		total += 1 + ln
+		verifapi.Assert(len(w.out) == total, "each packet, also an empty one, is framed with its length prefix and flushed")
+	}
 	// ... and read them back from a carrier that fragments / coalesces arbitrarily
 	r := &verifStream{in: w.out}
 	cr := newEncapsulationPacketConn(nil, nil, r)
 	var buf [16]byte
-	k, _, err := cr.ReadFrom(buf[:])
-	verifapi.Cover("first packet read")
-	verifapi.Assert(err == nil && k == 3, "the first packet is read back whole, whatever the carrier's read boundaries")
-	verifapi.Assert(buf[0] == p0[0] && buf[1] == 0x01 && buf[2] == 0x02, "the first packet has its original bytes")
-	k, _, err = cr.ReadFrom(buf[:])
-	verifapi.Cover("second packet read")
-	verifapi.Assert(err == nil && k == 2, "the second packet is read back whole: bytes delivered together with the first packet are not lost")
-	verifapi.Assert(buf[0] == p1[0] && buf[1] == 0x03, "the second packet has its original bytes")
-	_, _, err = cr.ReadFrom(buf[:])
+	for i := range pk {
+		k, _, err := cr.ReadFrom(buf[:])
+		verifapi.Assert(err == nil && k == len(pk[i]), "every packet is read back whole and in order, whatever the carrier's read boundaries: bytes delivered together with an earlier packet are not lost")
+		for j := range pk[i] {
+			verifapi.Assert(buf[j] == pk[i][j], "a packet has its original bytes")
+		}
+	}
+	verifapi.Cover("packets read back")
+	_, _, err := cr.ReadFrom(buf[:])
 	verifapi.Assert(err == io.EOF, "end of stream after the last packet")
 }
